@@ -37,7 +37,7 @@ MIN_REACH = {
     "schedules_run": {"quick": 1500, "thorough": 40000},
     "distinct_traces": {"quick": 500, "thorough": 10000},
     "reaps_checked": {"quick": 800, "thorough": 20000},
-    "polls_checked": {"quick": 1500, "thorough": 30000},
+    "polls_checked": {"quick": 1200, "thorough": 30000},
     "polls_during_write_in_progress": {"quick": 100, "thorough": 2000},
     "distinct_dfs_parts_exhausted": {"quick": 2, "thorough": 2},
     "growers_whose_result_write_failed_part_way": {"quick": 150, "thorough": 3000},
